@@ -164,7 +164,9 @@ example : (entryAt (twoCommitters.run [0, 1, 1, 0, 0, 1, 0, 0, 0, 1, 1, 1, 1, 1,
     guarded state does so in a single critical section (`atomicOK`), which is what lets the model treat each block /
     transaction cache operation as one atomic step; and the operations the model has are in the table and do touch
     guarded state (`present`). Fields nobody writes after construction (`main`, `prevBlockHash`, `round`) and the atomic
-    counters may be read anywhere; statements that touch no field of the receiver (a `Clone()` of the caller's argument
+    counters may be read anywhere. `TransactionCache.Commit` hands its writes to the block (`main.setValue`) with `tc.mu`
+    still held exclusively (`publishOK`): taking the write set and applying it are one critical section, so the
+    transaction's own `Get` never finds the write set empty and the block not yet updated. Statements that touch no field of the receiver (a `Clone()` of the caller's argument
     before the lock, a copy made for the caller after it) are unconstrained. -/
 theorem layer_lock_facts :
     Verif.SCLocks.guardedOK Verif.Gen.LockFacts.blockCache ["committed"] = true ∧
@@ -175,7 +177,9 @@ theorem layer_lock_facts :
     Verif.SCLocks.guardedOK Verif.Gen.LockFacts.transactionCache [] = true ∧
     Verif.SCLocks.atomicOK Verif.Gen.LockFacts.transactionCache [] = true ∧
     (["Get", "Set", "Remove", "Commit"].all
-      (Verif.SCLocks.present Verif.Gen.LockFacts.transactionCache [])) = true := by
+      (Verif.SCLocks.present Verif.Gen.LockFacts.transactionCache [])) = true ∧
+    Verif.SCLocks.publishOK Verif.Gen.LockFacts.transactionCache ["setValue", "remove"] = true ∧
+    Verif.SCLocks.publishes Verif.Gen.LockFacts.transactionCache ["setValue", "remove"] "Commit" = true := by
   decide
 
 /-- the premise `Inv c.sc T none` is what any sequential history without eviction establishes -/
